@@ -404,6 +404,10 @@ func runC05(c *Ctx) {
 		R.Add("S.concat-all", "(*service.packageParse).completePack / all slots, ascending", "", st, d)
 		R.Require("S.concat-all", 1, "")
 	}
+	// the bodies kept in the slot table are the bodies of the packets: they must not share storage with the read buffer
+	// or the pending buffer, which the next read rewrites (the analysis is C09's, run here as well: today's symptom
+	// "three copies of the last packet" is a reassembly failure)
+	c.e4Service()
 	c.deliverCompleteOnly()
 	c.hasCompleteContract()
 	R.Rules["S.start"] = "a transfer's slot table (with its creation time and first header) is created exactly by the packets numbered 1 and by every one of them: a new packet 1 restarts the transfer (stale slots of an abandoned or already completed transfer never leak into it), no other packet creates a table"
@@ -413,7 +417,7 @@ func runC05(c *Ctx) {
 		"the timestamp record dereferenced after a slot store exists (paired-map lemma, checked structurally and then used by E1), a rejected package number leaves no side effect, " +
 		"and the message returned as complete carries a freshly concatenated body equal to its raw data and the completion flag. Exact delivery over arrival orders, duplicates and interleavings is not decided; " +
 		"The consumer of the message channel hands a message to the response matcher, the reply function or a handler callback only behind a test that it is complete (or that filtering is off). " +
-		"That stored bodies do not alias a reused buffer is C09's clause."
+		"That stored bodies do not alias a reused buffer is decided by the buffer alias analysis shared with C09."
 }
 
 // deliverCompleteOnly: sub-packages are filtered until complete. In every service function, a message received from
